@@ -26,7 +26,10 @@ RULE = ("IDENT: (1) dn: DER RDNSequences built attribute by attribute (every att
         "missing, decoy with the CA's name and another key first), one or two signing rounds (re-sign with another certificate): token, "
         "publisherIdentity (name, issuerKeyHash, count), attribute list of assemblyIdentity, audit sig.x509.subject == model; Verify passes, "
         "returns the signing certificate, SignerName == audit subject, audit assembly.publicKeyToken / fingerprint, licence copies of subject "
-        "and token. (4) vgap: manifests signed through xmldsig.Sign with identity fields that are not the signer's. "
+        "and token. (4) vgap: manifests signed through xmldsig.Sign (both signatures good) with chosen identity fields: correct (CA-issued and "
+        "self-signed leaf), publisher name of somebody else / missing / twice, issuerKeyHash of somebody else / of the leaf, token of another key / "
+        "missing, licence X509SubjectName of somebody else / missing, issuer certificate not carried (correct hash; foreign hash = the listed gap "
+        "F-ident-verify-publisher-issuer): Verify == Model.Ident.verifyIdent, and every case but the correct ones must be refused. "
         "Non-trivial = distinct op other than a dn op whose name has no attribute.")
 TRUSTED = ["Relic.Model.Ident is hand-written from lib/appmanifest/publictoken.go, signmanifest.go, verify.go, lib/x509tools/names.go, util.go and "
            "go1.23 encoding/asn1 (parseField for interface{}, parseSequenceOf, string checkers); tied by differential execution on every run",
@@ -38,15 +41,18 @@ ASSUMPTIONS = ["rsa.PublicKey.E >= 0 (crypto/x509 refuses certificates with a no
                "NameStyle is one of the three constants (any other value panics in attName)",
                "UTCTime / GeneralizedTime attribute values (time.Time is a Stringer) and multi-byte tags in the value position are outside the DN model "
                "(the model answers `unmodelled`; such ops are not compared)",
-               "sign ops: subjects without CR (a CR in a manifest is the known F16-cr-write) ; characters XML cannot carry (C0 controls, U+FFFE/F) "
-               "are written as U+FFFD by etree and compared as such"]
+               "sign ops: subjects without CR (a CR in a manifest is the known F16-cr-write); what etree's writer does to a name it cannot carry "
+               "(invalid UTF-8, C0 controls, U+FFFE/F -> U+FFFD) is computed here, the model's Verify then refuses the manifest (F-ident-t61-bytes)",
+               "the leaf of a signature is the first carried certificate with the signature's key (x509tools.SameKey ignores the curve of an EC key; the model compares it)"]
 
 UNPROVED = ["publisher_is_spec_full (relic's MS-OSCO string = CertNameToStr(X500|REVERSE) for every name: false, witnesses publisher_ne_spec_apostrophe / "
             "_edge_white / _key_name; proved on the decidable class Spec.Ident.Agree: publisher_is_spec)",
             "dn_format_injective_full (false: dn_format_collision_*; proved on the class of string-valued, non-empty RDNs: dn_format_injective_partial)",
-            "verify_checks_identity_full (appmanifest.Verify compares only the token: verify_ignores_publisher)"]
+            "verify_checks_identity_full (false: verify_accepts_foreign_issuer_hash - the issuerKeyHash is judged only when a certificate named like "
+            "the issuer is carried; proved otherwise: verify_checks_identity)",
+            "verify_accepts_signed without IssuerAgrees (false: verify_accepts_signed_needs_agreement)"]
 
-KNOWN_CLASSES = {"apostrophe", "edgewhite", "keyname", "prefixed-token", "exp30", "t61-bytes", "verify-publisher"}
+KNOWN_CLASSES = {"apostrophe", "edgewhite", "keyname", "t61-bytes", "unwritable-name", "verify-publisher-issuer"}
 
 
 def _b(h):
@@ -123,10 +129,17 @@ def canon_model(op, mres):
         return "ok " + _sha1(_b(mres.split(" ")[1]))
     if f[1] == "sign" and mres.startswith("ok "):
         parts = mres.split(" ")
+        changed = False
         for i, p in enumerate(parts):
             if p.startswith("name="):
-                w, _, _ = xml_written(_b(p[5:]))
+                raw = _b(p[5:])
+                w, _, _ = xml_written(raw)
+                changed = w != raw
                 parts[i] = "name=" + (w.hex() if w else "-")
+        if changed:
+            # the name a reader gets back is not the string Verify recomputes from the certificate (theorem
+            # verify_rejects_rewritten_name): the repaired Verify refuses relic's own output
+            parts = ["verify=publisher-name-mismatch" if p == "verify=pass" else p for p in parts]
         return " ".join(parts)
     return mres
 
@@ -165,15 +178,12 @@ def _asi_attrs(s):
 def _sign_devs(f, mres, tag=""):
     devs = set()
     raw = _kv(tag).get("rawname")
-    if raw is not None and xml_written(_b(raw))[1]:
-        devs.add("t61-bytes")
-    attrs = _asi_attrs(f[3])
-    first = next((a for a in attrs if a[1] == "publicKeyToken"), None)
-    if first is not None and first[0] != "":
-        devs.add("prefixed-token")
-    last = f[2].split("|")[-1].split(";")[0].split(":")
-    if last[0] == "rsa" and int(last[2] if last[2] != "-" else "0", 16) >= 2 ** 30:
-        devs.add("exp30")
+    if raw is not None:
+        _, bad_utf8, unrep = xml_written(_b(raw))
+        if bad_utf8:
+            devs.add("t61-bytes")
+        elif unrep:
+            devs.add("unwritable-name")
     return devs
 
 
@@ -187,8 +197,8 @@ def _devs(op, mres, tag):
         return set()
     if f[1] == "sign":
         return _sign_devs(f, mres, tag)
-    if f[1] == "vgap":
-        return {"verify-publisher"} if f[2] in ("publisher-other", "publisher-missing", "ikh-other", "license-subject-other") else set()
+    if f[1] == "vgap" and f[2].startswith("gap-"):
+        return {"verify-publisher-issuer"}
     return set()
 
 
@@ -216,7 +226,7 @@ def branch(op, mres, tag):
         rounds = f[2].count("|") + 1
         if not mres.startswith("ok"):
             return "sign:%d:%s" % (rounds, mres.split(" #")[0])
-        return "sign:%d:verify=%s:%s" % (rounds, _kv(mres).get("verify"), "+".join(sorted(_sign_devs(f, mres))) or "plain")
+        return "sign:%d:verify=%s:%s" % (rounds, _kv(mres).get("verify"), "+".join(sorted(_sign_devs(f, mres, tag))) or "plain")
     if f[1] == "vgap":
         return "vgap:%s:%s" % (f[2], mres)
     return f[1]
@@ -284,7 +294,7 @@ def predicate(prop, op, il, mres, tag):
         if not il.startswith("ok "):
             return (_thm("C19", "identity_fields_are_signers"), mres, "Sign failed where the model signs")
         ik, mk = _kv(il.split(" !")[0]), _kv(mres)
-        thm = {"C01": _thm("C01", "appmanifest_identity_sign_then_verify_partial"),
+        thm = {"C01": _thm("C01", "appmanifest_identity_sign_then_verify"),
                "C06": _thm("C06", "audit_subject_identifies_certificate_partial")}.get(prop, _thm("C19", "identity_fields_are_signers"))
         # the fields a reader of the written manifest sees must be the signer's
         want_token = dict((a[1] if a[0] == "" else a[0] + ":" + a[1], a[2]) for a in _asi_attrs(mk.get("asi", "-"))).get("publicKeyToken")
@@ -294,12 +304,16 @@ def predicate(prop, op, il, mres, tag):
             if ik.get(fld) != mk.get(fld):
                 return (thm, "%s=%s" % (fld, mk.get(fld)), "%s of the signed manifest / record is not the signing certificate's" % fld)
         # model name before the XML writer: invalid UTF-8 means the publisher string cannot be what Windows derives
-        if "t61-bytes" in _devs(op, mres, tag):
+        dv = _devs(op, mres, tag)
+        if "t61-bytes" in dv:
             return (thm, "publisher name = the certificate's subject", "publisherIdentity/@name carries U+FFFD where the subject has a "
-                    "non-UTF-8 T61String byte (the bytes are never transcoded)")
+                    "non-UTF-8 T61String byte (the bytes are never transcoded); relic's Verify refuses the manifest")
+        if "unwritable-name" in dv:
+            return (thm, "publisher name = the certificate's subject", "the subject has a character XML cannot carry; etree writes U+FFFD "
+                    "and relic's Verify refuses the manifest relic signed")
         if ik.get("verify") != "pass":
-            return (_thm("C01", "appmanifest_identity_sign_then_verify_partial") if prop == "C01" else
-                    _thm("C19", "verify_accepts_signed_partial"), "verify=pass",
+            return (_thm("C01", "appmanifest_identity_sign_then_verify") if prop == "C01" else
+                    _thm("C19", "verify_accepts_signed"), "verify=pass",
                     "relic's verifier rejects the manifest relic just signed: " + str(ik.get("verify")))
         if " !" in il:
             return (thm, "no discrepancy", "after Sign+Verify: " + il.split(" !", 1)[1])
@@ -307,12 +321,19 @@ def predicate(prop, op, il, mres, tag):
             return (thm, "asi=%s" % mk.get("asi"), "attributes of assemblyIdentity other than publicKeyToken changed")
         return None
     if kind == "vgap":
-        bad = f[2] != "good"
+        sts = kv.get("streams", "").split("|") if "streams" in kv else []
+        want = [f[8]] + [c.split("~")[3] for c in f[4].split(",")]
+        for st, d in zip(sts, want):
+            if _sha1(_b(st)) != d:
+                return (_thm("C19", "verify_checks_identity (digest on the op line)"), d, "reference digest is not SHA-1 of the model's stream")
+        bad = not f[2].startswith("good")
         if bad and il == "ok pass":
-            return (_thm("C19", "verify_checks_identity_full"), "err",
-                    "appmanifest.Verify accepts a manifest whose %s is not the signing certificate's" % f[2])
+            return (_thm("C19", "verify_checks_identity_full" if f[2].startswith("gap-") else "verify_checks_identity"), "err",
+                    "appmanifest.Verify accepts a manifest whose identity fields are not the signing certificate's (%s)" % f[2])
         if not bad and il != "ok pass":
-            return (_thm("C19", "identity_fields_are_signers"), "ok pass", "Verify rejects a correctly identified manifest")
+            return (_thm("C19", "verify_accepts_signed"), "ok pass", "Verify rejects a correctly identified manifest")
+        if il != mres:
+            return (_thm("C19", "verify_checks_identity"), mres, "Verify's outcome differs from the modelled comparison")
         return None
     return None
 
